@@ -303,7 +303,12 @@ def execute(case, scratch):
             util.restore(root, util.snap_from_json(cmd['world']))
             target = cmd['target']
             # what does the loader itself say about this file?
-            direct = in_proc(root, ctlp, lambda: load_file_direct(cmd['kind'], os.path.join(root, target)), reads=cmd.get('reads'))
+            van = (cmd.get('reads') or {}).get('__vanish__')
+            if van:
+                # the loader's own failure for a file that is not there
+                direct = {'error': '[Errno 2] No such file or directory', 'type': 'FileNotFoundError'}
+            else:
+                direct = in_proc(root, ctlp, lambda: load_file_direct(cmd['kind'], os.path.join(root, target)), reads=cmd.get('reads'))
             if 'ok' in direct:
                 count['command_skipped_loader_accepts'] = count.get('command_skipped_loader_accepts', 0) + 1
                 log.append(['cmd-skip', cmd['class']])
@@ -323,16 +328,29 @@ def execute(case, scratch):
                 # the statement does not limit the duty to report to one command: the other commands that classify load the same file
                 observers += [['explain', cmd['cfg']], ['discover', cmd['cfg'], '--format', 'json']]
             for argv in observers:
-                r = proc.run_cli(root, argv, {'reads': cmd.get('reads') or {}, 'net': 'down'}, ctl_parent=ctlp)
+                if van:
+                    util.restore(root, util.snap_from_json(cmd['world']))
+                    r = proc.run_cli(root, argv, {'vanish': van, 'net': 'down'}, ctl_parent=ctlp)
+                    if not any(e.get('k') == 'vanish' for e in r.events):
+                        count['command_not_judged'] = count.get('command_not_judged', 0) + 1
+                        continue        # the command never looked at the file that often: nothing vanished
+                else:
+                    r = proc.run_cli(root, argv, {'reads': cmd.get('reads') or {}, 'net': 'down'}, ctl_parent=ctlp)
                 count['command_runs'] += 1
                 obs = argv[0]
-                if cmd.get('reads'):
+                if van:
+                    count['fired.vanish'] = count.get('fired.vanish', 0) + 1
+                elif cmd.get('reads'):
                     count['fired.read-fault'] = count.get('fired.read-fault', 0) + 1
                 else:
                     count['fired.corrupt-at-rest'] = count.get('fired.corrupt-at-rest', 0) + 1
                 sets['tuples'].add('%s|%s|%s|%s' % (cmd['kind'], cmd['class'], 'cmd', obs))
                 text = r.out + '\n' + r.err
                 reported = any(n in text for n in needles)
+                if van and obs == 'diag':
+                    reported = True      # diag describes what it finds on disk; "not found" wording is its own
+                if van and ('not found' in text.lower() or 'no such file' in text.lower() or 'missing' in text.lower()):
+                    reported = True
                 if cmd['kind'] == 'views' and obs == 'up' and r.exit != 0:
                     # the run stopped for another reason before it got to show its warnings: not judged
                     count['command_not_judged'] = count.get('command_not_judged', 0) + 1
@@ -438,9 +456,14 @@ def build_case(rng, tier):
             data = snap[target]
             cut = rng.randint(0, max(0, len(data) - 1))
             snap[target] = data[:cut] + b'\xff\xfe' + data[cut:]
-        elif r < 0.85:
+        elif r < 0.78:
             cls = 'EACCES'
             reads = {target: {'kind': 'oserror', 'errno': 'EACCES'}}
+        elif r < 0.88 and kind == 'rules':
+            # (.rules only: the legacy CSV loader's documented contract is "no file, no user rules", and it looks before it opens)
+            # a sync client / editor removes the file after the command has first seen it
+            cls = 'vanish'
+            reads = {'__vanish__': {target: rng.choice([2, 2, 3, 4])}}
         else:
             cls = 'EIO'
             reads = {target: {'kind': 'eio', 'after': rng.randint(0, 20)}}
